@@ -23,6 +23,7 @@
 #include <AIToolbox/MDP/Policies/QSoftmaxPolicy.hpp>
 #include <AIToolbox/MDP/Policies/EpsilonPolicy.hpp>
 #include <AIToolbox/MDP/Policies/RandomPolicy.hpp>
+#include <AIToolbox/MDP/Policies/BanditPolicyAdaptor.hpp>
 #include <AIToolbox/MDP/Policies/WoLFPolicy.hpp>
 #include <AIToolbox/MDP/Policies/PGAAPPPolicy.hpp>
 #include <AIToolbox/Factored/Bandit/Policies/QGreedyPolicy.hpp>
@@ -33,6 +34,7 @@
 #include <AIToolbox/Factored/Bandit/Experience.hpp>
 #include <AIToolbox/Factored/Bandit/Policies/LLRPolicy.hpp>
 #include <AIToolbox/Factored/Bandit/Policies/MAUCEPolicy.hpp>
+#include <AIToolbox/Factored/Bandit/Policies/MARMaxPolicy.hpp>
 #include <AIToolbox/Factored/Bandit/Policies/ThompsonSamplingPolicy.hpp>
 #include <AIToolbox/Factored/MDP/Policies/QGreedyPolicy.hpp>
 #include <AIToolbox/Factored/MDP/Policies/EpsilonPolicy.hpp>
@@ -84,6 +86,54 @@ static std::vector<double> genQ(Rng & rng, size_t n) {
     if (n > 1 && rng.coin(1, 3)) q[rng.below(n)] = q[rng.below(n)];        // force a tie somewhere
     return q;
 }
+// ---- round 3: large magnitudes (1e5 … 1e12), near-ties that are ties only through the RELATIVE tolerance of checkEqualGeneral
+// (gap > 1e-6 absolute, < 1e-12 relative), near-ties that are ties only through the ABSOLUTE tolerance (|q| < 1, gap 1.5e-8),
+// mirrored rows (x and -x), all-negative rows.  Every row is "clustered": values of one cluster are library-equal with a margin
+// of at least 10x, different clusters are at least 1e5 tolerances apart — so checkEqualGeneral is an equivalence on the row.
+// E (out) = binary exponent of the magnitude (0 for the small regime); all values have at most 45 significant bits, so adding
+// +-2^(E-1) is exact.
+static const char * kBigKinds[] = {"big_sep", "big_reltie", "big_mirror", "big_allneg", "small_abstie", "big_allequalish"};
+static std::vector<double> genQBig(Rng & rng, size_t n, int & E, int & mode) {
+    mode = (int)rng.below(6);
+    std::vector<double> q(n);
+    if (mode == 4) {
+        E = 0;
+        for (auto & x : q) x = (double)rng.range(-4, 4) / 8.0 + std::ldexp((double)rng.range(-2, 2), -26);
+        if (n > 1 && rng.coin()) q[rng.below(n)] = q[rng.below(n)];
+        return q;
+    }
+    E = (int)rng.range(mode == 0 ? 17 : 27, 40);
+    double B = std::ldexp(1.0 + (double)rng.below(512) / 512.0, E);
+    if (mode == 3 || (mode != 2 && rng.coin())) B = -B;
+    const double D = std::ldexp(1.0, E - 16), d = std::ldexp(1.0, E - 43);
+    for (auto & x : q) {
+        long c = mode == 5 ? 0 : rng.range(-3, 3), t = mode == 0 ? 0 : rng.range(0, 3);
+        x = B + (double)c * D + (double)t * d;
+        if (mode == 2 && rng.coin()) x = -x;
+    }
+    if (mode == 2 && n > 1) { size_t i = rng.below(n), j = (i + 1 + rng.below(n - 1)) % n; q[j] = -q[i]; }   // an exact mirrored pair
+    if (n > 1 && rng.coin(1, 3)) q[rng.below(n)] = q[rng.below(n)];
+    return q;
+}
+// chain of three near-ties a~b, b~c, a!~c (checkEqualGeneral is not transitive): small magnitude (gap 2^-20 < 1e-6 < 2 gaps) or
+// large magnitude (gap 7.3e-12 relative).  Recorded finding C09-greedy-nontransitive-ties; judged under its own clause name.
+static std::vector<double> genQChain(Rng & rng, size_t n, int & E) {
+    std::vector<double> q(n);
+    bool big = rng.coin();
+    E = big ? (int)rng.range(27, 40) : 0;
+    double B = big ? std::ldexp(rng.coin() ? 1.0 : -1.0, E) : (double)rng.range(-8, 8) / 4.0;
+    double g = big ? std::ldexp(1.0, E - 37) : std::ldexp(1.0, -20);
+    if (big && B < 0) B -= 2 * g;            // keep min(|a|,|b|) = 2^E for the outer pair
+    bool up = rng.coin();
+    for (size_t i = 0; i < n; ++i) { long k = i < 3 ? (long)i : rng.range(0, 2); q[i] = B + (double)(up ? k : 2 - k) * g; }
+    return q;
+}
+static std::vector<double> genQAny(Rng & rng, size_t n, int & E, std::string & kind) {
+    E = 0;
+    if (rng.coin()) { kind = "legacy"; return genQ(rng, n); }
+    int mode; auto q = genQBig(rng, n, E, mode); kind = kBigKinds[mode]; return q;
+}
+static void statQ(const char * who, const std::string & kind) { std::printf("#stat q_%s_%s 1\n", who, kind.c_str()); }
 static B::QFunction toVec(const std::vector<double> & q) { B::QFunction v(q.size()); for (size_t i = 0; i < q.size(); ++i) v[i] = q[i]; return v; }
 static std::vector<double> rowOf(const AI::Matrix2D & m, size_t s) { std::vector<double> r(m.cols()); for (long a = 0; a < m.cols(); ++a) r[a] = m(s, a); return r; }
 static std::vector<double> vecOf(const AI::Vector & v) { std::vector<double> r(v.size()); for (long a = 0; a < v.size(); ++a) r[a] = v[a]; return r; }
@@ -176,12 +226,14 @@ static void emit_softmax_mdp(const M::QFunction & Q, double t, int ns) {
 static void emit_shift_softmax(const std::vector<double> & q, double t, double c, int ns) {
     size_t n = q.size(); std::vector<double> qc(q); for (auto & x : qc) x += c;
     auto va = toVec(q), vb = toVec(qc);
-    // admissible shift: every exponential stays a normal finite double on both sides
-    for (auto * v : {&va, &vb}) { auto e = expOf(*v, t, false); for (long i = 0; i < e.size(); ++i) if (!(e[i] > 1e-300 && e[i] < 1e300)) return; }
+    // admissible shift: every exponential stays a normal finite double on both sides — "close": already for exp(q/T);
+    // "closeS": only for exp((q - max q)/T) (admissible when the library subtracts the maximum, Gen.C09.smSubtractMax)
+    bool plain = true;
+    for (auto * v : {&va, &vb}) { auto e = expOf(*v, t, false); for (long i = 0; i < e.size(); ++i) if (!(e[i] > 1e-300 && e[i] < 1e300)) plain = false; }
     unsigned sd = ++g_seed * 7919u;
     AI::Seeder::setRootSeed(sd); B::QSoftmaxPolicy pa(va, t);
     AI::Seeder::setRootSeed(sd); B::QSoftmaxPolicy pb(vb, t);
-    Line l; l << "C09" << "shift" << "Bandit::QSoftmaxPolicy" << "close" << n; putRow(l, q); l << c << "|";
+    Line l; l << "C09" << "shift" << "Bandit::QSoftmaxPolicy" << (plain ? "close" : "closeS") << n; putRow(l, q); l << c << "|";
     putRow(l, vecOf(pa.getPolicy())); putRow(l, vecOf(pb.getPolicy())); l << 0;
     l.emit();
     (void)ns;
@@ -223,10 +275,17 @@ static void emit_table(Rng & rng, size_t S, size_t n, int ns) {
     reseed();
     AI::Matrix2D m(S, n);
     for (size_t s = 0; s < S; ++s) { auto r = dyadicRowLocal(rng, n); for (size_t a = 0; a < n; ++a) m(s, a) = r[a]; }
-    int which = (int)rng.below(4);
+    int which = (int)rng.below(6);
     std::unique_ptr<M::PolicyInterface> holder; std::unique_ptr<M::Policy> src;
     const char * comp;
-    if (which == 0) { holder.reset(new M::Policy(m)); comp = "MDP::Policy"; }
+    std::printf("#stat table_ctor_%d 1\n", which);
+    if (which == 4) {   // rarely used overload: copy through the generic base interface (S*A getActionProbability calls), non-square S x A
+        src.reset(new M::Policy(m)); holder.reset(new M::Policy(static_cast<const M::PolicyInterface::Base &>(*src))); comp = "MDP::Policy(copy-base)"; }
+    else if (which == 5) {  // greedy policy of a ValueFunction: one-hot rows
+        M::ValueFunction vf; vf.values = AI::Vector::Zero(S); vf.actions.resize(S);
+        m.setZero(); for (size_t s = 0; s < S; ++s) { vf.actions[s] = rng.below(n); m(s, vf.actions[s]) = 1.0; }
+        holder.reset(new M::Policy(S, n, vf)); comp = "MDP::Policy(valuefunction)"; }
+    else if (which == 0) { holder.reset(new M::Policy(m)); comp = "MDP::Policy"; }
     else if (which == 1) { holder.reset(new M::PolicyWrapper(m)); comp = "MDP::PolicyWrapper"; }
     else if (which == 2) { src.reset(new M::Policy(m)); holder.reset(new M::Policy(static_cast<const M::PolicyInterface &>(*src))); comp = "MDP::Policy(copy)"; }
     else { holder.reset(new M::Policy(S, n)); m.fill(1.0 / n); comp = "MDP::Policy(uniform)"; }
@@ -236,6 +295,42 @@ static void emit_table(Rng & rng, size_t S, size_t n, int ns) {
         for (size_t a = 0; a < n; ++a) l << p.getActionProbability(s, a);
         putRow(l, rowOf(pol, s)); l << ns;
         for (int i = 0; i < ns; ++i) { l << peekU(eng(p)); l << p.sampleAction(s); }
+        l.emit();
+    }
+}
+
+// a matrix that is NOT a set of distributions must be rejected by the checked constructor (isProbability): if it is accepted the
+// policy exposes it, and the row clauses fail on the implementation's own table
+static void emit_table_invalid(Rng & rng, size_t S, size_t n) {
+    reseed();
+    AI::Matrix2D m(S, n);
+    for (size_t s = 0; s < S; ++s) { auto r = dyadicRowLocal(rng, n); for (size_t a = 0; a < n; ++a) m(s, a) = r[a]; }
+    size_t s = rng.below(S), a = rng.below(n); int kind = (int)rng.below(4);
+    if (kind == 0) m.row(s) *= 0.5;                                   // sums to 1/2
+    else if (kind == 1) m(s, a) += 0.25;                              // sums to 5/4
+    else if (kind == 2 && n > 1) { m(s, a) -= 1.25; m(s, (a + 1) % n) += 1.25; }   // sums to one with a negative entry
+    else m(s, a) = m(s, a) + std::ldexp(1.0, -16);                    // off by 1.5e-5 (15 tolerances)
+    std::printf("#stat table_invalid_kind%d 1\n", kind);
+    try {
+        M::Policy p(m); auto pol = p.getPolicy();
+        for (size_t r = 0; r < S; ++r) {
+            Line l; l << "C09" << "table" << "MDP::Policy(invalid-accepted)" << n; putRow(l, rowOf(m, r)); l << "|";
+            for (size_t x = 0; x < n; ++x) l << p.getActionProbability(r, x);
+            putRow(l, rowOf(pol, r)); l << 0; l.emit();
+        }
+    } catch (const std::invalid_argument &) { std::printf("#stat table_invalid_rejected 1\n"); }
+}
+
+// MDP::BanditPolicyAdaptor over value-based bandit policies: every state shows the bandit policy (getPolicy: transpose + replicate)
+static void emit_adaptor(const std::vector<double> & q, size_t S, int ns) {
+    reseed();
+    auto qv = toVec(q); size_t n = q.size();
+    M::BanditPolicyAdaptor<B::QGreedyPolicy> p(S, qv); auto pol = p.getPolicy();
+    for (size_t s = 0; s < S; ++s) {
+        Line l; l << "C09" << "greedy" << "MDP::BanditPolicyAdaptor<QGreedyPolicy>" << n; putRow(l, q); l << "|";
+        for (size_t a = 0; a < n; ++a) l << p.getActionProbability(s, a);
+        putRow(l, rowOf(pol, s)); l << ns;
+        for (int i = 0; i < ns; ++i) { putW(l, eng(p.getBanditPolicy())); l << p.sampleAction(s); }
         l.emit();
     }
 }
@@ -286,7 +381,8 @@ static void emit_lrp(Rng & rng, size_t n, double a, double b, int k, int ns) {
 }
 
 // ---- WoLF / PGA-APP
-static void fillRow(Rng & rng, M::QFunction & Q, size_t s) { auto q = genQ(rng, Q.cols()); for (long a = 0; a < Q.cols(); ++a) Q(s, a) = q[a]; }
+static const char * g_who = "row";
+static void fillRow(Rng & rng, M::QFunction & Q, size_t s) { int E; std::string kind; auto q = genQAny(rng, Q.cols(), E, kind); statQ(g_who, kind); for (long a = 0; a < Q.cols(); ++a) Q(s, a) = q[a]; }
 
 static void emit_wolf(Rng & rng, size_t n, size_t S, double dW, double dL, double sc, int k, int ns) {
     reseed();
@@ -335,11 +431,11 @@ static void emit_pgaapp(Rng & rng, size_t n, size_t S, double lr, double pl, int
 }
 
 // ---- Thompson family
-static B::Experience makeExp(Rng & rng, size_t n, double centre, double spread, bool someUnvisited, double shift) {
+static B::Experience makeExp(Rng & rng, size_t n, double centre, double spread, bool someUnvisited, double shift, double muStep = 1.0) {
     B::Experience e(n);
     for (size_t a = 0; a < n; ++a) {
         int cnt = someUnvisited && rng.coin(1, 3) ? (int)rng.below(2) : (int)rng.range(2, 6);
-        double mu = centre + (double)rng.range(-8, 8) / 4.0;
+        double mu = centre + muStep * (double)rng.range(-8, 8) / 4.0;
         for (int i = 0; i < cnt; ++i) e.record(a, mu + spread * (double)rng.range(-4, 4) / 4.0 + shift);
     }
     return e;
@@ -388,6 +484,26 @@ static void emit_mc(const char * comp, Pol & p, int ns) {
     l.emit();
 }
 
+// Monte-Carlo tables against the frequencies of an identical copy (same Experience, same engine state, inner policy included):
+// getPolicy() draws 100000 samples, getActionProbability(a) 1000 — the copy replays exactly those draws.
+template <class Pol>
+static void emit_mc2(const char * comp, Pol & p) {
+    size_t n = p.getA();
+    Pol c(p);
+    auto table = vecOf(p.getPolicy());
+    const size_t trials = 100000, qtrials = 1000;
+    std::vector<size_t> cnt(n, 0), qcnt(n, 0); size_t oor = 0;
+    for (size_t i = 0; i < trials; ++i) { size_t a = c.sampleAction(); if (a < n) ++cnt[a]; else ++oor; }
+    std::vector<double> probs(n);
+    for (size_t a = 0; a < n; ++a) {
+        probs[a] = p.getActionProbability(a);
+        for (size_t i = 0; i < qtrials; ++i) if (c.sampleAction() == a) ++qcnt[a];
+    }
+    Line l; l << "C09" << "mc2" << comp << n << trials; for (auto x : cnt) l << x; l << qtrials; for (auto x : qcnt) l << x;
+    l << "|"; putRow(l, table); putRow(l, probs); l.emit();
+    (void)oor;
+}
+
 // ---- ESRL
 static void emit_esrl(Rng & rng, size_t n, double a, unsigned N, unsigned phases, unsigned window, int k) {
     reseed();
@@ -410,7 +526,7 @@ static void emit_esrl(Rng & rng, size_t n, double a, unsigned N, unsigned phases
 }
 
 // ---- SuccessiveRejects
-static void emit_sr(Rng & rng, size_t n, unsigned budget, int k) {
+static void emit_sr(Rng & rng, size_t n, unsigned budget, int k, double base = 0.0, double step = 0.25) {
     reseed();
     B::Experience exp(n);
     B::SuccessiveRejectsPolicy p(exp, budget);
@@ -424,7 +540,7 @@ static void emit_sr(Rng & rng, size_t n, unsigned budget, int k) {
     observe();
     for (int i = 0; i < k; ++i) {
         size_t a = p.sampleAction();
-        exp.record(a, (double)rng.range(-16, 16) / 4.0);
+        exp.record(a, base + step * (double)rng.range(-16, 16));
         p.stepUpdateQ();
         in << p.getCurrentNk(); putRow(in, vecOf(exp.getRewardMatrix()));
         observe();
@@ -434,6 +550,17 @@ static void emit_sr(Rng & rng, size_t n, unsigned budget, int k) {
     l << "|" << nk1; l.tok(out.os.str()); l.emit();
 }
 
+// per-joint-action queries over the whole joint space: P(a) = (1-eps) [a = greedy] + eps / |space|  (eps = 0: deterministic, 1: uniform)
+static void fprob_line(const char * comp, const F::Action & A, const FB::PolicyInterface & pol, double eps, const F::Action & gact, int ns) {
+    size_t m = A.size();
+    Line l; l << "C09" << "fprob" << comp << m; for (auto a : A) l << a; l << eps; for (auto a : gact) l << a;
+    size_t np = 1; for (auto a : A) np *= a; l << np;
+    F::PartialFactorsEnumerator e(A);
+    while (e.isValid()) { F::Action a = (*e).second; for (auto x : a) l << x; l << pol.getActionProbability(a); e.advance(); }
+    l << ns; for (int i = 0; i < ns; ++i) { auto a = pol.sampleAction(); for (auto x : a) l << x; }
+    l.emit();
+}
+static const double kEpsF[] = {0.0, 1.0, 0.5, 0.125, 0.1, 0.3};
 // ---- factored bandit wrappers: joint action in range; greedy: optimal by brute force
 static void emit_factored(Rng & rng) {
     reseed();
@@ -441,9 +568,13 @@ static void emit_factored(Rng & rng) {
     F::Action A(m); for (auto & a : A) a = (size_t)rng.range(2, 3);
     // random local payoff functions over pairs of neighbouring agents
     std::vector<FB::QFunctionRule> rules;
+    // round 3: payoffs off + sc*k/4 with off in {0, +-2^E} (E = 17..40) — large magnitudes, all-negative tables, mixed signs; sums of three stay exact
+    double off = 0.0, sc = 1.0; int reg = (int)rng.below(4);
+    if (reg >= 2) { int E = (int)rng.range(17, 40); off = std::ldexp(rng.coin() ? 1.0 : -1.0, E); sc = reg == 2 ? 1.0 : std::ldexp(1.0, E - 20); }
+    std::printf("#stat q_factored_%s 1\n", reg < 2 ? "legacy" : reg == 2 ? "big" : "big_scaled");
     for (size_t i = 0; i + 1 < m; ++i)
         for (size_t x = 0; x < A[i]; ++x) for (size_t y = 0; y < A[i + 1]; ++y)
-            rules.push_back(FB::QFunctionRule{F::PartialAction{{i, i + 1}, {x, y}}, (double)rng.range(-16, 16) / 4.0});
+            rules.push_back(FB::QFunctionRule{F::PartialAction{{i, i + 1}, {x, y}}, (rng.coin(1, 8) ? -off : off) + sc * (double)rng.range(-16, 16) / 4.0});
     F::FilterMap<FB::QFunctionRule> fm(A);
     for (auto & r : rules) fm.emplace(r.action, r);
     auto value = [&](const F::Action & a) { double v = 0; for (auto & r : rules) if (F::match(a, r.action)) v += r.value; return v; };
@@ -453,6 +584,15 @@ static void emit_factored(Rng & rng) {
     };
     FB::QGreedyPolicy<> g(A, fm);
     line("Factored::Bandit::QGreedyPolicy", g.sampleAction(), true);
+    auto fprob = [&](const char * comp, const FB::PolicyInterface & pol, double eps, const F::Action & gact, int ns) { fprob_line(comp, A, pol, eps, gact, ns); };
+    {
+        auto gact = g.sampleAction();
+        fprob("Factored::Bandit::QGreedyPolicy", g, 0.0, gact, 1);
+        FB::RandomPolicy rq(A); fprob("Factored::Bandit::RandomPolicy", rq, 1.0, gact, 3);
+        double ee = kEpsF[rng.below(6)]; FB::EpsilonPolicy eq(g, ee); fprob("Factored::Bandit::EpsilonPolicy", eq, ee, gact, 3);
+        FB::SingleActionPolicy sq(A); F::Action u0(m); for (size_t i = 0; i < m; ++i) u0[i] = rng.below(A[i]); sq.updateAction(u0);
+        fprob("Factored::Bandit::SingleActionPolicy", sq, 0.0, u0, 1);
+    }
     FB::RandomPolicy rp(A);
     for (int i = 0; i < 3; ++i) line("Factored::Bandit::RandomPolicy", rp.sampleAction(), false);
     FB::EpsilonPolicy ep(g, 0.5);
@@ -468,9 +608,13 @@ static void emit_factored(Rng & rng) {
 
 // ---- TopTwoThompson / T3C selection kernels: the inner ThompsonSamplingPolicy is private; a shadow constructed with the same
 // seed (the 2nd value the Seeder hands out after reseed()) answers exactly what the inner one will answer.
+static void recommend_line(const char * comp, const B::Experience & exp, size_t act) {
+    Line l; l << "C09" << "recommend" << comp << (size_t)exp.getA(); putRow(l, vecOf(exp.getRewardMatrix())); l << "|" << act; l.emit();
+}
 static void emit_toptwo(const B::Experience & exp, double beta, int reps) {
     reseed();
     B::TopTwoThompsonSamplingPolicy p(exp, beta); size_t n = p.getA();
+    recommend_line("TopTwoThompsonSamplingPolicy", exp, p.recommendAction());
     AI::Seeder::setRootSeed(g_root); (void)AI::Seeder::getSeed();
     B::ThompsonSamplingPolicy shadow(exp);
     for (int i = 0; i < reps; ++i) {
@@ -489,6 +633,7 @@ static void emit_toptwo(const B::Experience & exp, double beta, int reps) {
 static void emit_t3c(const B::Experience & exp, double beta, double var, int reps) {
     reseed();
     B::T3CPolicy p(exp, beta, var); size_t n = p.getA();
+    recommend_line("T3CPolicy", exp, p.recommendAction());
     AI::Seeder::setRootSeed(g_root); (void)AI::Seeder::getSeed();
     B::ThompsonSamplingPolicy shadow(exp);
     for (int i = 0; i < reps; ++i) {
@@ -523,7 +668,10 @@ static void emit_factored_learners(Rng & rng) {
     std::vector<F::PartialKeys> deps; for (size_t i = 0; i + 1 < m; ++i) deps.push_back({i, i + 1});
     if (m == 2 && rng.coin()) deps = {{0}, {1}};
     bool visitAll = rng.coin(3, 4);
-    auto exp = makeFExp(rng, A, deps, visitAll, rng.coin() ? 3.0 : -3.0);
+    double fcentre = rng.coin() ? 3.0 : -3.0;
+    if (rng.coin(1, 3)) fcentre = std::ldexp(rng.coin() ? 1.0 : -1.0, (int)rng.range(17, 40));
+    std::printf("#stat q_flearn_%s 1\n", std::fabs(fcentre) < 4 ? "legacy" : "big");
+    auto exp = makeFExp(rng, A, deps, visitAll, fcentre);
     if (exp.getTimesteps() == 0) return;
     const auto & q = exp.getRewardMatrix(); const auto & c = exp.getVisitsTable(); const auto & M2 = exp.getM2Matrix();
     {   // LLR: upper confidence values, same expressions as the library
@@ -561,13 +709,45 @@ static void emit_factored_learners(Rng & rng) {
         auto act = p.sampleAction();
         Line l; l << "C09" << "joint" << "Factored::Bandit::MAUCEPolicy" << m; for (auto a : A) l << a; for (auto a : act) l << a; l << false << 0.0 << 0.0; l.emit();
     }
+    {   // MARMax / MAVMax: deterministic; plays the maximiser of the (optimistic) value tables, which are recomputed here with the
+        // library's expressions after every stepUpdateQ.  Joint action optimal by brute force; queries = indicator of that action.
+        reseed();
+        FB::Experience ex2(A, deps);
+        AI::Vector ranges(deps.size()); for (long i = 0; i < ranges.size(); ++i) ranges[i] = (double)rng.range(1, 4);
+        bool optimistic = rng.coin();
+        FB::MARMaxPolicy p(ex2, ranges, rng.coin() ? 0.5 : 0.25, 0.5, optimistic);
+        const double mm = p.getM();
+        std::vector<std::vector<double>> vals(deps.size());
+        for (size_t i = 0; i < deps.size(); ++i) vals[i].assign(ex2.getRewardMatrix().bases[i].values.size(), ranges[i]);
+        F::Rewards rew(deps.size());
+        int steps = (int)rng.range(1, 12);
+        double base = std::fabs(fcentre) < 4 ? 0.0 : fcentre;
+        for (int t = 0; t < steps; ++t) {
+            F::Action a = rng.coin(2, 3) ? p.sampleAction() : F::Action(A.size(), 0);
+            if (rng.coin(1, 4)) for (size_t i = 0; i < A.size(); ++i) a[i] = rng.below(A[i]);
+            for (size_t i = 0; i < deps.size(); ++i) rew[i] = base + (double)rng.range(-8, 8) / 4.0;
+            const auto & ind = ex2.record(a, rew);
+            p.stepUpdateQ(ind);
+            for (size_t i = 0; i < ind.size(); ++i) {
+                const auto id = ind[i]; const double n = ex2.getVisitsTable()[i][id], qv = ex2.getRewardMatrix().bases[i].values[id];
+                if (n >= mm) vals[i][id] = qv; else if (optimistic) vals[i][id] = (n * qv + (mm - n) * ranges[i]) / mm;
+            }
+        }
+        std::vector<LocalRule> rules;
+        for (size_t i = 0; i < deps.size(); ++i) for (size_t y = 0; y < vals[i].size(); ++y)
+            rules.push_back({deps[i], F::toFactorsPartial(deps[i], A, y), vals[i][y]});
+        auto act = p.sampleAction();
+        fjoint_line("Factored::Bandit::MARMaxPolicy", A, rules, act);
+        fprob_line("Factored::Bandit::MARMaxPolicy", A, p, 0.0, act, 1);
+        std::printf("#stat marmax_%s 1\n", optimistic ? "optimistic" : "plain");
+    }
     {   // Factored::MDP wrappers over Q-function rules that depend on the state
         reseed();
         F::State S(2); S[0] = 2; S[1] = (size_t)rng.range(2, 3);
         std::vector<FM::QFunctionRule> qr;
         for (size_t i = 0; i + 1 < m; ++i) for (size_t sv = 0; sv < S[i % 2]; ++sv)
             for (size_t x = 0; x < A[i]; ++x) for (size_t y = 0; y < A[i + 1]; ++y)
-                if (rng.coin(3, 4)) qr.push_back(FM::QFunctionRule{F::PartialState{{i % 2}, {sv}}, F::PartialAction{{i, i + 1}, {x, y}}, (double)rng.range(-16, 16) / 4.0});
+                if (rng.coin(3, 4)) qr.push_back(FM::QFunctionRule{F::PartialState{{i % 2}, {sv}}, F::PartialAction{{i, i + 1}, {x, y}}, (std::fabs(fcentre) < 4 ? 0.0 : fcentre) + (double)rng.range(-16, 16) / 4.0});
         F::FilterMap<FM::QFunctionRule> fm(S);
         for (auto & r : qr) fm.emplace(r.state, r);
         FM::QGreedyPolicy<> g(S, A, fm);
@@ -600,7 +780,7 @@ static const double kScale[] = {1.0, 4.0, 5000.0, 0.5};
 static const double kLr[] = {0.0, 1.0 / 1024, 0.125, 0.5, 0.001, 2.0};
 static const double kPl[] = {0.0, 1.0, 3.0, 0.5};
 
-static const long kWitness = 6;
+static const long kWitness = 8;
 
 long verif::verif_ncases(const std::string & tier) { return kWitness + (tier == "thorough" ? 6000 : 420); }
 
@@ -625,6 +805,27 @@ static void witness(long idx) {
         emit_greedy_bandit({-3.0, -1.5, -1.5, -7.0, -1.5}, 4); emit_shift_greedy({-3.0, -1.5, -1.5, -7.0, -1.5}, 1024.0, 6); break; }
     case 5: { // LRP with one action and b > 0 (outside the documented use; recorded as excluded)
         Rng r(2); emit_lrp(r, 1, 0.5, 0.5, 2, 1); break; }
+    case 6: { // greedy: chain of three near-ties (a~b, b~c, a!~c): getPolicy sums to 2, the queries to 5/6, sampleAction plays only the last
+        const double g = std::ldexp(1.0, -20), B = std::ldexp(1.0, 27), G = std::ldexp(1.0, -10);
+        emit_greedy_bandit({0.0, g, 2 * g}, 4);
+        emit_greedy_bandit({B, B + G, B + 2 * G}, 4);
+        emit_greedy_bandit({-B - 2 * G, -B - G, -B}, 4);
+        M::QFunction Q(2, 3); Q << B, B + G, B + 2 * G,   2 * g, g, 0.0;
+        emit_greedy_mdp(Q, 2);
+        emit_softmax_bandit({0.0, g, 2 * g}, 0.0, 2);
+        emit_softmax_mdp(Q, 0.0, 2);
+        break; }
+    case 7: { // ties that hold only through the RELATIVE tolerance (|q| = 1.3e8, gap 1.5e-5): all three members must use the same test
+        const double B = std::ldexp(1.0, 27), d = std::ldexp(1.0, -16);
+        emit_greedy_bandit({B, B + d, 5.0}, 4);
+        emit_greedy_bandit({-B, 5.0 - B, d - B, -B - d}, 4);
+        emit_greedy_bandit({B + d, -B - d, B, -B}, 4);
+        M::QFunction Q(2, 3); Q << B + d, 5.0, B,   -B, -B - d, -B - 5.0;
+        emit_greedy_mdp(Q, 3);
+        emit_eps_mdp(Q, 0.25, 2);
+        emit_softmax_bandit({B, 5.0, B + d}, 0.0, 3);
+        emit_shift_greedy({B, B + d, 5.0}, std::ldexp(1.0, 26), 4);
+        break; }
     }
 }
 
@@ -636,57 +837,91 @@ void verif::verif_case(Rng & rng, long idx, const std::string & tier) {
     size_t S = (size_t)rng.range(1, 3);
     int ns = 3;
     switch (cls) {
-    case 0: { auto q = genQ(rng, n); emit_greedy_bandit(q, ns);
-              double c = std::ldexp(rng.coin() ? 1.0 : -1.0, (int)rng.range(-2, 16)); emit_shift_greedy(q, c, 4);
+    case 0: { int E; std::string kind; auto q = genQAny(rng, n, E, kind);
+              if (n >= 3 && rng.coin(1, 10)) { q = genQChain(rng, n, E); kind = "chain"; }
+              statQ("greedy", kind);
+              emit_greedy_bandit(q, ns);
+              double c = std::ldexp(rng.coin() ? 1.0 : -1.0, E ? E - (int)rng.range(1, 3) : (int)rng.range(-2, 16));
+              if (kind != "chain") emit_shift_greedy(q, c, 4);
               std::printf("#stat greedy_n%zu 1\n", n); break; }
-    case 1: { M::QFunction Q(S, n); for (size_t s = 0; s < S; ++s) fillRow(rng, Q, s); emit_greedy_mdp(Q, ns); break; }
-    case 2: { auto q = genQ(rng, n); double t = kT[rng.below(8)]; if (rng.coin(1, 8)) t = std::ldexp(1.0, -(int)rng.range(4, 9));
+    case 1: { g_who = "greedy_mdp"; M::QFunction Q(S, n); for (size_t s = 0; s < S; ++s) fillRow(rng, Q, s);
+              if (n >= 3 && rng.coin(1, 10)) { int E; auto q = genQChain(rng, n, E); for (size_t a = 0; a < n; ++a) Q(0, a) = q[a]; statQ(g_who, "chain"); }
+              emit_greedy_mdp(Q, ns); break; }
+    case 2: { int E; std::string kind; auto q = genQAny(rng, n, E, kind); statQ("softmax", kind);
+              double t = kT[rng.below(8)]; if (rng.coin(1, 8)) t = std::ldexp(1.0, -(int)rng.range(4, 9));
+              if (rng.coin(1, 10)) t = std::ldexp(1.0, -19);      // 1.9e-6: just above the delegation threshold
               emit_softmax_bandit(q, t, ns);
-              if (t > 1e-6) { double c = std::ldexp(rng.coin() ? 1.0 : -1.0, (int)rng.range(-2, 4)); emit_shift_softmax(q, t, c, 0); }
+              if (t > 1e-6) { double c = std::ldexp(rng.coin() ? 1.0 : -1.0, E ? E - (int)rng.range(1, 3) : (int)rng.range(-2, 4)); emit_shift_softmax(q, t, c, 0); }
               break; }
-    case 3: { M::QFunction Q(S, n); for (size_t s = 0; s < S; ++s) fillRow(rng, Q, s); emit_softmax_mdp(Q, kT[rng.below(8)], ns); break; }
-    case 4: { auto q = genQ(rng, n); auto qv = toVec(q); double e = kEps[rng.below(6)];
+    case 3: { g_who = "softmax_mdp"; M::QFunction Q(S, n); for (size_t s = 0; s < S; ++s) fillRow(rng, Q, s); emit_softmax_mdp(Q, kT[rng.below(8)], ns); break; }
+    case 4: { int E; std::string kind; auto q = genQAny(rng, n, E, kind); statQ("eps", kind); auto qv = toVec(q); double e = kEps[rng.below(6)];
               int w = (int)rng.below(3);
               if (w == 0) { B::QGreedyPolicy g(qv); emit_eps_bandit("Bandit::EpsilonPolicy", g, e, ns); }
-              else if (w == 1) { for (long i = 0; i < qv.size(); ++i) while (std::fabs(qv[i]) > 8.0) qv[i] /= 2;   // keep the wrapped softmax out of its small-sum regime (reported on its own lines)
-                                 B::QSoftmaxPolicy g(qv, 1.0); emit_eps_bandit("Bandit::EpsilonPolicy", g, e, ns); }
+              else if (w == 1) { B::QSoftmaxPolicy g(qv, rng.coin() ? 1.0 : 0.0); emit_eps_bandit("Bandit::EpsilonPolicy", g, e, ns); }
               else { B::RandomPolicy g(n); emit_eps_bandit("Bandit::EpsilonPolicy", g, e, ns); }
               break; }
-    case 5: { M::QFunction Q(S, n); for (size_t s = 0; s < S; ++s) fillRow(rng, Q, s); emit_eps_mdp(Q, kEps[rng.below(6)], ns); break; }
-    case 6: emit_table(rng, S, n, ns); break;
+    case 5: { g_who = "eps_mdp"; M::QFunction Q(S, n); for (size_t s = 0; s < S; ++s) fillRow(rng, Q, s); emit_eps_mdp(Q, kEps[rng.below(6)], ns); break; }
+    case 6: emit_table(rng, S, n, ns); emit_table_invalid(rng, S, n);
+            { int E; std::string kind; auto q = genQAny(rng, n, E, kind); statQ("adaptor", kind); emit_adaptor(q, S, 2); }
+            break;
     case 7: emit_random(n, S, ns); break;
     case 8: { double a = kAB[rng.below(7)], b = kAB[rng.below(7)]; if (rng.coin(1, 12)) a = 1.5; if (rng.coin(1, 12)) b = -0.25;
               size_t nn = n < 2 ? 2 : n; emit_lrp(rng, nn, a, b, (int)rng.range(0, th ? 200 : 40), ns); break; }
-    case 9: { double dW = kDelta[rng.below(7)], dL = kDelta[rng.below(7)], sc = kScale[rng.below(4)];
+    case 9: { g_who = "wolf"; double dW = kDelta[rng.below(7)], dL = kDelta[rng.below(7)], sc = kScale[rng.below(4)];
               emit_wolf(rng, n, S, dW, dL, sc, (int)rng.range(0, th ? 200 : 40), ns); break; }
-    case 10: { emit_pgaapp(rng, n, S, kLr[rng.below(6)], kPl[rng.below(4)], (int)rng.range(0, th ? 200 : 30), ns, rng.coin(1, 6)); break; }
+    case 10: { g_who = "pgaapp"; emit_pgaapp(rng, n, S, kLr[rng.below(6)], kPl[rng.below(4)], (int)rng.range(0, th ? 200 : 30), ns, rng.coin(1, 6)); break; }
     case 11: { size_t nn = n < 2 ? 2 : n;
-               double centre = rng.coin() ? 12.0 : -12.0; bool unv = rng.coin(1, 4);
+               double centre = rng.coin() ? 12.0 : -12.0, spread = 0.5, muStep = 1.0; bool unv = rng.coin(1, 4);
+               // round 3: reward magnitudes 1e5 … 1e12 of either sign; reg 3 additionally scales the differences between arms down to
+               // 2^-42 relative (means that differ only far below the library's relative tolerance — Thompson must still order them exactly)
+               int reg = (int)rng.below(4), E = 0;
+               if (reg >= 2) { E = (int)rng.range(17, reg == 2 ? 30 : 40); centre = std::ldexp((rng.coin() ? 1.0 : -1.0) * (1.0 + (double)rng.below(512) / 512.0), E);
+                               if (reg == 3) { spread = std::ldexp(1.0, E - 40); muStep = 2 * spread; } }
+               std::printf("#stat q_thompson_%s 1\n", reg < 2 ? "legacy" : reg == 2 ? "big" : "big_tinyspread");
                Rng r1 = rng, r2 = rng;
-               auto e = makeExp(r1, nn, centre, 0.5, unv, 0.0);
+               auto e = makeExp(r1, nn, centre, spread, unv, 0.0, muStep);
                emit_thompson_kernel(e, 3);
-               double c = (double)rng.range(-24, 24);
-               auto e2 = makeExp(r2, nn, centre, 0.5, unv, c);
-               emit_thompson_shift("ThompsonSamplingPolicy", nn, c, 6,
-                   [&]() { return std::make_unique<B::ThompsonSamplingPolicy>(e); }, [&]() { return std::make_unique<B::ThompsonSamplingPolicy>(e2); });
-               {   // TopTwo / T3C kernels on a positive-reward experience (keeps TopTwo's rejection loop short), ties included
-                   Rng r4 = rng; auto ek = makeExp(r4, nn, 12.0, 0.5, rng.coin(1, 5), 0.0);
+               if (reg != 3) {
+                   // shift: a small constant, or (big regime) -2*centre, which mirrors an all-positive history into an all-negative one
+                   double c = reg == 2 && rng.coin() ? -2 * centre : (double)rng.range(-24, 24);
+                   auto e2 = makeExp(r2, nn, centre, spread, unv, c, muStep);
+                   emit_thompson_shift("ThompsonSamplingPolicy", nn, c, 6,
+                       [&]() { return std::make_unique<B::ThompsonSamplingPolicy>(e); }, [&]() { return std::make_unique<B::ThompsonSamplingPolicy>(e2); });
+               }
+               if (reg != 3) {   // TopTwo: same two histories (its selection only sees the inner Thompson answers and its own coin)
+                   Rng r5 = r1, r6 = r1;
+                   double c = reg == 2 ? -2 * centre : (double)rng.range(-24, 24);
+                   auto ea = makeExp(r5, nn, centre, spread, false, 0.0, muStep), eb = makeExp(r6, nn, centre, spread, false, c, muStep);
+                   emit_thompson_shift("TopTwoThompsonSamplingPolicy", nn, c, 6,
+                       [&]() { return std::make_unique<B::TopTwoThompsonSamplingPolicy>(ea, 0.5); }, [&]() { return std::make_unique<B::TopTwoThompsonSamplingPolicy>(eb, 0.5); });
+                   // T3C: two records per arm, dyadic rewards — the running means are exact on both sides, so equal transportation costs
+                   // stay equal after the shift (the tie coins are then consumed identically)
+                   B::Experience ta(nn), tb(nn);
+                   for (size_t a = 0; a < nn; ++a) for (int k = 0; k < 2; ++k) { double r = centre + spread * (double)rng.range(-8, 8); ta.record(a, r); tb.record(a, r + c); }
+                   emit_thompson_shift("T3CPolicy", nn, c, 6,
+                       [&]() { return std::make_unique<B::T3CPolicy>(ta, 0.5, 1.0); }, [&]() { return std::make_unique<B::T3CPolicy>(tb, 0.5, 1.0); });
+               }
+               {   // TopTwo / T3C kernels (same ratio of arm differences to spread as before: keeps TopTwo's rejection loop short), ties included
+                   Rng r4 = rng; auto ek = makeExp(r4, nn, reg >= 2 ? centre : 12.0, spread, rng.coin(1, 5), 0.0, muStep);
                    if (rng.coin(1, 3)) { B::Experience et(nn); for (size_t a = 0; a < nn; ++a) { et.record(a, a == 0 ? 2.0 : 1.0); et.record(a, a == 0 ? 2.5 : 1.5); } ek = et; }   // equal challengers: tie coins
                    emit_toptwo(ek, kEps[rng.below(6)], 3);
                    emit_t3c(ek, kEps[rng.below(6)], rng.coin() ? 1.0 : 0.5, 3);
                }
                if ((idx / 14) % 4 == 0) {
                    // Monte-Carlo tables (positive rewards only for TopTwo: its rejection loop needs a second arm to ever win)
-                   Rng r3 = rng; auto ep = makeExp(r3, nn, 12.0, 2.0, false, 0.0);
+                   Rng r3 = rng; auto ep = makeExp(r3, nn, reg == 2 ? centre : (rng.coin() ? 12.0 : -12.0), 2.0, false, 0.0);
                    reseed();
-                   B::ThompsonSamplingPolicy tp(ep); emit_mc("ThompsonSamplingPolicy", tp, 4);
-                   B::TopTwoThompsonSamplingPolicy tt(ep, 0.5); emit_mc("TopTwoThompsonSamplingPolicy", tt, 4);
-                   B::T3CPolicy t3(ep, 0.5, 1.0); emit_mc("T3CPolicy", t3, 4);
+                   B::ThompsonSamplingPolicy tp(ep); emit_mc("ThompsonSamplingPolicy", tp, 4); emit_mc2("ThompsonSamplingPolicy", tp);
+                   B::TopTwoThompsonSamplingPolicy tt(ep, 0.5); emit_mc("TopTwoThompsonSamplingPolicy", tt, 4); emit_mc2("TopTwoThompsonSamplingPolicy", tt);
+                   B::T3CPolicy t3(ep, 0.5, 1.0); emit_mc("T3CPolicy", t3, 4); emit_mc2("T3CPolicy", t3);
                }
                break; }
     case 12: { double a = kAB[rng.below(7)]; size_t nn = n < 2 ? 2 : n;
                emit_esrl(rng, nn, a, (unsigned)rng.range(1, 6), (unsigned)rng.range(0, 4), (unsigned)rng.range(1, 5), (int)rng.range(0, th ? 120 : 40));
-               emit_sr(rng, nn, (unsigned)rng.range((long)nn * 2, (long)nn * 12), (int)rng.range(0, th ? 150 : 60));
+               {   double base = 0.0, step = 0.25; int reg = (int)rng.below(4);
+                   if (reg >= 2) { int E = (int)rng.range(17, 40); base = std::ldexp((rng.coin() ? 1.0 : -1.0) * (1.0 + (double)rng.below(512) / 512.0), E); step = reg == 2 ? 0.25 : std::ldexp(1.0, E - 43); }
+                   std::printf("#stat q_sr_%s 1\n", reg < 2 ? "legacy" : reg == 2 ? "big" : "big_tinystep");
+                   emit_sr(rng, nn, (unsigned)rng.range((long)nn * 2, (long)nn * 12), (int)rng.range(0, th ? 150 : 60), base, step); }
                break; }
     case 13: if ((idx / 14) % 2 == 0) emit_factored(rng); else emit_factored_learners(rng); break;
     }
